@@ -50,3 +50,86 @@ Proof.
   rewrite firstn_O, app_nil_r. apply firstn_all2. rewrite split_word_length. lia.
 Qed.
 Print Assumptions C10_rows_are_the_complete_frames.
+
+(* ------------------------------------------------------------------ *)
+(* C10 x C09: the analog sync lines use their own volts-per-bit          *)
+(* ------------------------------------------------------------------ *)
+From Coq Require Import String.
+From IBL.C09 Require Model Props.
+
+Lemma nth_block {A} (a b c e dflt : A) (n0 n1 n2 n3 i : nat) :
+  (n0 + n1 <= i < n0 + n1 + n2)%nat ->
+  nth i (repeat a n0 ++ repeat b n1 ++ repeat c n2 ++ repeat e n3) dflt = c.
+Proof.
+  intros Hi.
+  rewrite app_nth2 by (rewrite repeat_length; lia). rewrite repeat_length.
+  rewrite app_nth2 by (rewrite repeat_length; lia). rewrite repeat_length.
+  rewrite app_nth1 by (rewrite repeat_length; lia).
+  assert (Hin : In (nth (i - n0 - n1) (repeat c n2) dflt) (repeat c n2))
+    by (apply nth_In; rewrite repeat_length; lia).
+  now apply repeat_spec in Hin.
+Qed.
+
+(* Property C09's model of _conversion_sample2v_from_meta on a nidq meta
+   (any niAiRangeMax, any amplifier gains niMNGain / niMAGain, channel counts
+   m0 MN, m1 MA, m2 XA, m3 DW): the channels read_sync thresholds — C10's
+   analog_indices, which are C09's analog sync traces — all carry the factor
+   range / maxint / 1: neither amplifier gain enters.  Together with
+   C10_analog_line_alone (whose `gain` is that one factor): analog line k of
+   read_sync = [XA sample x (range/maxint) - floor >= threshold]. *)
+Theorem C10_analog_lines_use_the_XA_gain :
+  forall d rng mi gmn gma m0 m1 m2 m3,
+  IBL.C09.Model.int2volt d = Some (rng, mi) ->
+  IBL.C09.Model.lookup (IBL.C09.Model.lit "imroTbl"%string) d = None ->
+  IBL.C09.Model.lookup (IBL.C09.Model.lit "niMNGain"%string) d = Some (IBL.C09.Model.VNum gmn) ->
+  IBL.C09.Model.lookup (IBL.C09.Model.lit "niMAGain"%string) d = Some (IBL.C09.Model.VNum gma) ->
+  IBL.C09.Model.lookup (IBL.C09.Model.lit "snsMnMaXaDw"%string) d =
+    Some (IBL.C09.Model.VList [(m0, O); (m1, O); (m2, O); (m3, O)]) ->
+  0 <= m0 -> 0 <= m1 -> 0 <= m2 -> 0 <= m3 ->
+  IBL.C09.Model.get_type d = Some (Some IBL.C09.Model.SNidq) ->
+  exists g,
+    IBL.C09.Model.sample2volts d = Some (rng, mi, g) /\
+    Z.of_nat (List.length g) = m0 + m1 + m2 + m3 /\
+    IBL.C09.Model.analog_sync d = Some (m0 + m1, Z.max 0 m2) /\
+    (forall i, In i (analog_indices 1 m0 m1 m2 m3) <-> m0 + m1 <= i < m0 + m1 + m2) /\
+    (forall i, In i (analog_indices 1 m0 m1 m2 m3) ->
+       nth (Z.to_nat i) g IBL.C09.Model.C1 = IBL.C09.Model.CG (1, O)).
+Proof.
+  intros d rng mi gmn gma m0 m1 m2 m3 Hi Ht Hmn Hma Hx H0 H1 H2 H3 Hty.
+  destruct (IBL.C09.Props.C09_s2v_nidq d rng mi gmn gma (m0, O) (m1, O) (m2, O) (m3, O)
+              Hi Ht Hmn Hma Hx) as [Hs Hl];
+    try (unfold IBL.C09.Model.dec_trunc; cbn; rewrite Z.div_1_r; assumption).
+  eexists. split.
+  - apply (proj2 (IBL.C09.Props.C09_sample2volts_table d rng mi) _ Hs Hty).
+  - assert (Hin : forall i, In i (analog_indices 1 m0 m1 m2 m3) <-> m0 + m1 <= i < m0 + m1 + m2).
+    { intros i. rewrite analog_indices_spec. change (1 =? 1) with true. cbv iota.
+      rewrite in_map_iff. split.
+      - intros [k [<- Hk]]. apply in_seq in Hk. lia.
+      - intros Hr. exists (Z.to_nat (i - m0 - m1)). split; [lia|]. apply in_seq. lia. }
+    assert (E : forall m, IBL.C09.Model.dec_trunc (m, O) = m)
+      by (intros m; unfold IBL.C09.Model.dec_trunc; cbn; apply Z.div_1_r).
+    split; [rewrite Hl, !E; reflexivity|]. split.
+    + apply (proj2 (IBL.C09.Props.C09_analog_sync_table d) m0 m1 m2 (m3, O) Hty Hx).
+    + split; [exact Hin|]. intros i Hi'. apply Hin in Hi'.
+      unfold IBL.C09.Model.zrepeat.
+      rewrite !E. apply nth_block. lia.
+Qed.
+Print Assumptions C10_analog_lines_use_the_XA_gain.
+
+(* hypotheses satisfiable: C09's example nidq meta (range 5 V, niMNGain 200,
+   niMAGain 2.5, 2 MN + 1 MA + 2 XA + 1 DW): the XA channels 3 and 4 carry CG 1,
+   the MA channel next to them carries CG 2.5 *)
+Example C10_example_hyp_xa_gain : exists d,
+  IBL.C09.Model.read_meta IBL.C09.Props.nidq_file = Some d /\
+  IBL.C09.Model.int2volt d = Some ((5, O), 32768) /\
+  IBL.C09.Model.lookup (IBL.C09.Model.lit "imroTbl"%string) d = None /\
+  IBL.C09.Model.lookup (IBL.C09.Model.lit "niMNGain"%string) d = Some (IBL.C09.Model.VNum (200, O)) /\
+  IBL.C09.Model.lookup (IBL.C09.Model.lit "niMAGain"%string) d = Some (IBL.C09.Model.VNum (25, 1%nat)) /\
+  IBL.C09.Model.lookup (IBL.C09.Model.lit "snsMnMaXaDw"%string) d =
+    Some (IBL.C09.Model.VList [(2, O); (1, O); (2, O); (1, O)]) /\
+  IBL.C09.Model.get_type d = Some (Some IBL.C09.Model.SNidq) /\
+  analog_indices 1 2 1 2 1 = [3; 4] /\
+  option_map (fun r => snd r) (IBL.C09.Model.sample2volts d) =
+    Some [IBL.C09.Model.CG (200, O); IBL.C09.Model.CG (200, O); IBL.C09.Model.CG (25, 1%nat);
+          IBL.C09.Model.CG (1, O); IBL.C09.Model.CG (1, O); IBL.C09.Model.C1].
+Proof. eexists. split; [vm_compute; reflexivity|]. repeat split; vm_compute; reflexivity. Qed.
